@@ -24,6 +24,7 @@ import sys
 import tempfile
 
 from . import common, tlc
+from .exc import exc_name
 
 PID = "C20"
 # an argument longer than the kernel's per-argument limit: exec of the solver
@@ -151,7 +152,7 @@ def run_scenario(scn):
             else:
                 got = project_result("is_satisfiable", F.is_satisfiable(**kw))
         except Exception as e:          # the exception class is the observable
-            got = {"ret": type(e).__name__, "w": []}
+            got = {"ret": exc_name(e), "w": []}
     finally:
         os.chdir(saved[2])
         os.environ["PATH"] = saved[0] if saved[0] is not None else ""
